@@ -12,6 +12,11 @@ from two instance variables: `self.process` (the `Task` of the last launch that 
   give the emission field `exitReason = SubmissionFailed`, any other exception `UnknownIssue`;
 * `HandleTaskExit`: `reason = process.exitReason if process is not None else emission['exitReason']`,
   then `_setExitReason(reason)`, which again prefers `self.process.exitReason` when there is a process;
+* `HandleTaskObservableException` (the error handler of the task-wait pipeline `Wait` →
+  `FinalisePerformanceInfo`): when a step of that pipeline raises AFTER the task exited (the backend
+  cannot deliver the task's performance information, the performance table cannot be updated) it calls
+  `_setExitReason(UnknownIssue)` - and `_setExitReason` prefers `self.process.exitReason`, so the reason
+  reported is still the task's own (`Launch.taskThenFault`);
 * `Engine.restart` (the branch that restarts): `self.process = None`, `self._exitReason = None`, `run()`.
 
 No Mathlib.
@@ -26,6 +31,10 @@ inductive Launch
   | submitError
   /-- any other exception: no Task -/
   | otherError
+  /-- a Task is created and ends with exit reason `r`; then a step of the engine's own post-exit
+  pipeline (`Wait` → `FinalisePerformanceInfo`) raises: `HandleTaskExit` never runs, the error handler
+  `HandleTaskObservableException` does -/
+  | taskThenFault (r : Reason)
   deriving DecidableEq, Repr
 
 /-- the exit reason of an execution, by definition of the exit reasons -/
@@ -33,6 +42,12 @@ def Launch.reason : Launch → Reason
   | .task r => r
   | .submitError => .submissionFailed
   | .otherError => .unknownIssue
+  | .taskThenFault r => r
+
+/-- the post-exit pipeline raises after the task ended -/
+def Launch.faultAfterExit : Launch → Bool
+  | .taskThenFault _ => true
+  | _ => false
 
 /-- the instance variables of `Engine` that decide what `exitReason()` reports -/
 structure EngS where
@@ -47,6 +62,7 @@ def EngS.launchTask (e : EngS) : Launch → EngS × Option Reason
   | .task r => ({ e with process := some r }, none)
   | .submitError => ({ e with process := none }, some .submissionFailed)
   | .otherError => ({ e with process := none }, some .unknownIssue)
+  | .taskThenFault r => ({ e with process := some r }, none)
 
 /-- `_setExitReason(reason)` -/
 def EngS.setExitReason (e : EngS) (reason : Reason) : EngS :=
@@ -56,10 +72,24 @@ def EngS.setExitReason (e : EngS) (reason : Reason) : EngS :=
 def EngS.handleExit (e : EngS) (emitted : Option Reason) : EngS :=
   e.setExitReason (match e.process with | some r => r | none => emitted.getD .unknownIssue)
 
-/-- one execution: launch, wait, handle the exit -/
+/-- `HandleTaskObservableException(exception)` for an exception other than "sequence contains no
+elements": `_setExitReason(UnknownIssue)` -/
+def EngS.handleError (e : EngS) : EngS := e.setExitReason .unknownIssue
+
+/-- one execution: launch, wait, handle the exit (or the error of the post-exit pipeline) -/
 def EngS.execute (e : EngS) (l : Launch) : EngS :=
   let r := e.launchTask l
-  r.1.handleExit r.2
+  if l.faultAfterExit then r.1.handleError else r.1.handleExit r.2
+
+/-- `_setExitReason` WITHOUT the preference for the task's own reason ("the caller decides"): kept only
+to show that the preference is what makes the reported reason independent of post-exit faults
+(`Props/C02.lean: caller_decides_breaks_reported_reason`) -/
+def EngS.setExitReasonCallerDecides (e : EngS) (reason : Reason) : EngS := { e with exit := some reason }
+
+def EngS.executeCallerDecides (e : EngS) (l : Launch) : EngS :=
+  let r := e.launchTask l
+  if l.faultAfterExit then r.1.setExitReasonCallerDecides .unknownIssue
+  else r.1.setExitReasonCallerDecides (match r.1.process with | some x => x | none => r.2.getD .unknownIssue)
 
 /-- `Engine.restart`, the part before `self.run()` -/
 def EngS.restart (_e : EngS) : EngS := { process := none, exit := none }
